@@ -29,7 +29,7 @@ ASSUMPTIONS = ["SimFS models a POSIX file as a character sequence; a crash keeps
                "element alphabet of the statement: non-negative ints; non-empty strings without []{},: or whitespace "
                "that are not digit-only",
                "an injected read error (EIO) is outside the statement and only recorded as a probe"]
-EXPECTED_PROBES = ["string_roundtrip_ok", "file_roundtrip_ok", "parser_total_calls", "valueerror_seen",
+EXPECTED_PROBES = ["string_roundtrip_ok", "file_roundtrip_ok", "folder_roundtrip_ok", "parser_total_calls", "valueerror_seen",
                    "torn_file_parsed"]
 STATES_MEASURE = "distinct (fault kind, offset class, parser outcome class) triples"
 FUZZ_ALPHABET = "[]{},:% \t\n0123456789abcz"
@@ -98,8 +98,15 @@ def gen_case(st, tier, env):
                 else:
                     base = base[:i] + w.choice(FUZZ_ALPHABET) + base[i + 1:]
             texts.append(base)
-    return {"strings": strings, "file": {"dataset": ds, "path": k.choice(["out.txt", "/sim/data/d1", "sub.rankings"]),
+    case = {"strings": strings, "file": {"dataset": ds, "path": k.choice(["out.txt", "/sim/data/d1", "sub.rankings"]),
                                          "fault": fault}, "texts": texts}
+    if k.random() < 0.3:
+        kind2 = k.choice(["int", "str"])
+        case["folder"] = {"datasets": [gen.gen_dataset(w, n_max=5, m_max=4, kinds=(kind2,), file_safe=True,
+                                                       allow_empty=False) for _ in range(k.choice([1, 2, 3]))],
+                          "names": w.sample(["b_ds", "a_ds", "ds10", "ds2", "Z", "data.txt"], 3),
+                          "trailing_sep": k.random() < 0.5}
+    return case
 
 
 def nontrivial(probes):
@@ -171,6 +178,11 @@ def run_case(case, ctx):
     if fpart:
         _file_part(fpart, case, ctx)
 
+    # ---- B'. several datasets -> folder -> datasets (fault-free) ------------------------------------------------------
+    fo = case.get("folder")
+    if fo:
+        _folder_part(fo, ctx)
+
     # ---- C. fuzz texts: totality ---------------------------------------------------------------------------------
     for text in case.get("texts", []):
         repro = {"strings": [], "texts": [text]}
@@ -178,6 +190,43 @@ def run_case(case, ctx):
             cls = _total(ctx, name, fn, text, "fuzz", repro)
             ctx.state(["fuzz", name, cls])
         ctx.event("fuzz", text)
+
+
+def _folder_part(fo, ctx):
+    fs = SimFS()
+    fs.install()
+    try:
+        want = {}
+        for spec, name in zip(fo["datasets"], fo["names"]):
+            okd, ds = call(build_dataset, spec)
+            if not okd:
+                continue
+            okw, _ = call(ds.write, "/sim/data/" + name)
+            if okw:
+                want[name] = canon_rankings(ds.rankings)
+        if not want:
+            return
+        okr, got = call(Dataset.get_datasets_from_folder, "/sim/data" + ("/" if fo.get("trailing_sep") else ""))
+        repro = {"strings": [], "texts": [], "folder": fo}
+        if not okr:
+            ctx.violate("C18/folder-roundtrip", f"{exc_label(got)}: {str(got)[:120]}", sorted(want), {}, "folder")
+            ctx.violations[-1]["case_override"] = repro
+            return
+        names = [d.name for d in got]
+        if names != sorted(want):
+            ctx.violate("C18/folder-roundtrip", {"names": names}, {"names": sorted(want)}, {}, "folder")
+            ctx.violations[-1]["case_override"] = repro
+            return
+        for d in got:
+            if model.multiset(canon_rankings(d.rankings)) != model.multiset(want[d.name]):
+                ctx.violate("C18/folder-roundtrip", {"name": d.name, "read": model.canon(canon_rankings(d.rankings))},
+                            model.canon(want[d.name]), {}, "folder")
+                ctx.violations[-1]["case_override"] = repro
+                return
+        ctx.probe("folder_roundtrip_ok")
+        ctx.event("folder", names)
+    finally:
+        fs.uninstall()
 
 
 def _file_part(fpart, case, ctx):
